@@ -327,7 +327,7 @@ def kmer_iter_override_table(F, rep, rule="C13.2"):
                     i = args[1].val if isinstance(args[1], Int) and args[1].is_conc() else None
                     if i is None or i >= L:
                         raise Diverge("base %r of a sequence of %d bases" % (args[1], L))
-                    return Int(8, False, bits=[TOP] * 8, tags=frozenset({"b:%d" % i}))
+                    return Int(8, False, bits=[TOP, TOP] + [ZERO] * 6, tags=frozenset({"b:%d" % i}))       # a base: 0..3
                 if name in ("get_kmer", "first_kmer", "last_kmer"):
                     i = 0 if name == "first_kmer" else (N - 1 if name == "last_kmer" else (args[1].val if isinstance(args[1], Int) and args[1].is_conc() else None))
                     if i is None or i >= N:
